@@ -976,6 +976,17 @@ fn layer_matrix(pid: &str) {
                         if let Ok(t2) = gb2.$build(bkey) { if PasetoParser::<$V, $P>::default().parse(lk(&t2), pkey).is_ok() { return wit(format!("{pid} default PasetoParser<{}> accepts a token whose {claim} is {val}", $name)); } } } }
             } Err(e) => { if is(&["C01", "C02", "C13"]) { return wit(format!("{pid} PasetoBuilder<{}>::build #{round} failed: {e}", $name)); } } } }
         }
+        if is(&["C13", "C17"]) {
+            // acknowledgement and duplicate handling on every version's build()
+            let mut b1 = PasetoBuilder::<$V, $P>::default(); b1.set_no_expiration_danger_acknowledged(); b1.set_claim(SubjectClaim::from("s"));
+            for round in 0..2 { if let Ok(t) = b1.build(bkey) { if let Ok(j) = GenericParser::<$V, $P>::default().parse(lk(&t), pkey) { if !j["exp"].is_null() && pid == "C13" { return wit(format!("C13 PasetoBuilder<{}> with acknowledged no-expiration, build #{round}: the token carries exp: {j}", $name)); } } } else if pid == "C17" { return wit(format!("C17 PasetoBuilder<{}> without a repeated key: build #{round} failed", $name)); } }
+            let mut b2 = PasetoBuilder::<$V, $P>::default(); b2.set_claim(SubjectClaim::from("s"));
+            for round in 0..2 { match b2.build(bkey) { Ok(t) => { if let Ok(j) = GenericParser::<$V, $P>::default().parse(lk(&t), pkey) { if pid == "C13" { let pt = |v: &serde_json::Value| time::OffsetDateTime::parse(v.as_str().unwrap_or(""), &time::format_description::well_known::Rfc3339);
+                    match (pt(&j["exp"]), pt(&j["iat"]), pt(&j["nbf"])) { (Ok(e), Ok(i), Ok(n)) if e - i == time::Duration::hours(1) && n == i => {}, _ => return wit(format!("C13 PasetoBuilder<{}> build #{round}: default exp/iat/nbf are not (iat+1h, creation time, creation time): {j}", $name)) } } } }
+                Err(e) => { if pid == "C17" { return wit(format!("C17 PasetoBuilder<{}> without a repeated key: build #{round} failed: {e}", $name)); } } } }
+            let mut b3 = PasetoBuilder::<$V, $P>::default(); b3.set_claim(SubjectClaim::from("a")); b3.set_claim(IssuerClaim::from("i")); b3.set_claim(SubjectClaim::from("b"));
+            for round in 0..2 { if b3.build(bkey).is_ok() && pid == "C17" { return wit(format!("C17 PasetoBuilder<{}>: sub supplied twice but build #{round} returned a token", $name)); } }
+        }
         if is(&["C09"]) { for s in ["", ".", "..", "...", "a.b.c", "a.b.c.d", "v4.local.", "v1.public.AAAA", "v2.local.AAAA.AAAA", "v3.local.\u{20ac}", "\u{20ac}.\u{20ac}.\u{20ac}"] { let hdr = format!("{}.", $name.to_lowercase().replace(",", "."));
             for t in [s.to_string(), format!("{hdr}{}", R::b64(&[0u8; 7])), format!("{hdr}{}", R::b64(&[0u8; 70])), format!("{hdr}{}.\u{e9}", R::b64(&[0u8; 120])), format!("{hdr}{}.Zm9v", R::b64(&[255u8; 300]))] {
                 if catch_unwind(AssertUnwindSafe(|| { let _ = GenericParser::<$V, $P>::default().parse(lk(&t), pkey); let _ = PasetoParser::<$V, $P>::default().parse(lk(&t), pkey); let mut g = GenericParser::<$V, $P>::default(); g.set_footer(Footer::from("foo")); let _ = g.parse(lk(&t), pkey); })).is_err() { return wit(format!("C09 GenericParser/PasetoParser<{}>::parse panics on token {t:?}", $name)); } } } }
